@@ -11,7 +11,12 @@ import (
 // between configuration changes. Over every history of the alphabet the PMTs that did reach the output
 // must obey the version rule: between two consecutive emitted PMTs the version_number moves by exactly
 // one (mod 32) if the content differs and stays if it does not.
-func c17WriterFaults(c *mc.Ctx) {
+//
+// Under C05 the same histories are judged by the continuity rule instead: on every PID the payload-carrying
+// packets that did reach the output carry consecutive continuity counters - a packet that was written keeps the
+// value it carries (no later packet shows it again), and only a refused write may cost a value - for as long as
+// the stream stays added.
+func c17WriterFaults(c *mc.Ctx, prop string) {
 	type op struct {
 		m    MOp
 		fail int // -1: no fault; 0/1: the first / second Write call of this operation is refused (one-shot)
@@ -51,6 +56,7 @@ func c17WriterFaults(c *mc.Ctx) {
 			// failed emission may have used up a version number: the statement is about emissions that happen)
 			changed, failed := false, 0
 			prevVer, have := uint8(0), false
+			lastCC, failedAt := map[uint16]uint8{}, map[uint16]int{}
 			ops := []op{{opAddA, -1}, {opPcrA, -1}, {opTables, -1}}
 			for _, d := range dg {
 				ops = append(ops, alpha[d])
@@ -76,8 +82,33 @@ func c17WriterFaults(c *mc.Ctx) {
 					c.Rep.Report("writer-fault-leaves-partial-packet", det)
 					return
 				}
+				if o.m.K == "rm" && r.Err == nil {
+					delete(lastCC, o.m.PID)
+				}
 				for _, b := range raw {
 					p, err := ref.DecodePkt(b)
+					if prop == "C05" {
+						if err != nil {
+							det["message"] = "undecodable packet in the output"
+							c.Rep.Report("packet-malformed:after-writer-fault", det)
+							return
+						}
+						if !p.HasPL {
+							continue
+						}
+						// a Write call that failed may have put part of its packet on the wire: the value that packet
+						// carried may be given up, so k refused writes since the PID's previous packet allow a step of
+						// 1..1+k - never a value seen again, never a gap without a refusal
+						if prev, ok := lastCC[p.PID]; ok {
+							if step := int(p.CC+16-prev) & 15; step < 1 || step > 1+h.W.FailedIn-failedAt[p.PID] {
+								det["message"] = fmt.Sprintf("PID %#x: a payload packet with continuity counter %d follows one with %d in the output (%d writes refused in between)", p.PID, p.CC, prev, h.W.FailedIn-failedAt[p.PID])
+								c.Rep.Report("cc-not-consecutive:after-writer-fault", det)
+								return
+							}
+						}
+						lastCC[p.PID], failedAt[p.PID] = p.CC, h.W.FailedIn
+						continue
+					}
 					if err != nil || p.PID != 0x1000 {
 						continue
 					}
@@ -108,6 +139,6 @@ func c17WriterFaults(c *mc.Ctx) {
 		})
 	}
 	c.Ev.AddScenario(mc.Scenario{Name: "table-writes-refused", SpaceSize: total, Executed: done, Exhaustive: done == total,
-		Bound: fmt.Sprintf("all histories of length <= %d over {add, remove, SetPCRPID x2, add automatic, WriteTables, WriteTables with the PAT write refused, WriteTables with the PMT write refused, WriteData} that contain a refused write and end in an emission; version rule on the PMTs that reached the output", depth)})
+		Bound: fmt.Sprintf("all histories of length <= %d over {add, remove, SetPCRPID x2, add automatic, WriteTables, WriteTables with the PAT write refused, WriteTables with the PMT write refused, WriteData} that contain a refused write and end in an emission; %s", depth, map[bool]string{true: "continuity rule per PID on the packets that reached the output", false: "version rule on the PMTs that reached the output"}[prop == "C05"])})
 	c.Ev.DistinctAdd(done)
 }
